@@ -35,18 +35,18 @@ from props import repair
 HEADER = """From Coercion.Base Require Import Plan.
 From Coercion.Engine Require Import Shape Event.
 From Coercion.Resume Require Import Resume MonRecover ResumeCheck.
-Definition known : devs := {| dev_R2 := %s; dev_R3 := %s; dev_R4 := %s; dev_R5 := %s |}.
+Definition known : devs := {| dev_R2 := %s; dev_R3 := %s; dev_R5 := %s; dev_R6 := %s |}.
 Definition chk := check_rcase known.
 Definition okf := rcase_ok known."""
 
-FLAGS = {2: "R2", 3: "R3", 4: "R4", 5: "R5"}
+FLAGS = {2: "R2", 3: "R3", 5: "R5", 6: "R6"}   # R4 is a C11 finding, not ours
 WHAT = {
     "R2": "interrupted check-group run is not repaired by recovery (a check action stays Running / its group keeps the "
           "interrupted run's Start / deferred groups are skipped when recovery short-circuits to End)",
     "R3": "fixBlock early return leaves an in-flight sequence Running",
-    "R4": "a sequence repaired in memory is not written before its block's terminal write: after a second crash it stays "
+    "R5": "a sequence repaired in memory is not written before its block's terminal write: after a second crash it stays "
           "Running inside a finished block (fixBlock ignores blocks that are not Running)",
-    "R5": "plan-level continuous group durably Failed: Recovery goes to End and abandons the block that was executing (left Running)",
+    "R6": "plan-level continuous group durably Failed: Recovery goes to End and abandons the block that was executing (left Running)",
 }
 RPH = ["RIdle", "RRecover", "RRun"]
 PPH = ["PStart", "PBypass", "PPre", "PBlocks", "PPost", "PDeferred", "PEnd", "PReleased"]
@@ -82,7 +82,7 @@ def known_flags():
 
 def header(known):
     b = lambda x: "true" if x in known else "false"
-    return HEADER % (b("R2"), b("R3"), b("R4"), b("R5"))
+    return HEADER % (b("R2"), b("R3"), b("R5"), b("R6"))
 
 
 def describe_reject(r):
@@ -205,7 +205,7 @@ def run_check(ctx, which, plans_quick, plans_thorough, frm, double_quick=4, doub
 
 
 def say_known(ctx, fid, n, example):
-    pid, ctx.pid = ctx.pid, "C10"          # R2-R5 are findings of C10
+    pid, ctx.pid = ctx.pid, "C10"          # R2, R3, R5, R6 are findings of C10
     ctx.known(fid, "%s [%d recoveries of this run need the flag, e.g. %s]" % (WHAT[fid], n, example))
     ctx.pid = pid
 
